@@ -748,6 +748,12 @@ func (f *Fam) checkSlashing(before, after *Snapshot, w []string, fail func(strin
 			// jailed for ever (the block did not halt, so the evidence was acted upon)
 			f.jailedAt[a] = -1 // for ever
 			f.extra["c07:conviction-checked"]++
+			if v.Jailed {
+				f.extra["c07:conviction-of-already-jailed"]++
+			}
+			if v.Status == 1 {
+				f.extra["c07:conviction-of-unstaking"]++
+			}
 			if got.Sign() != 0 {
 				fail("conviction-burns-all", "C07:conviction-left-stake", fmt.Sprintf("BeginBlock %d: %s convicted of double signing keeps %s of %s", f.height, a, got, stake))
 			}
